@@ -40,6 +40,96 @@ def crash_violation(res, what, rc, text, inputs):
 
 
 # --------------------------------------------------------------------------------------------
+def repo_test_traces(res, want):
+    """T on the repository's own tests (thorough tier): the tests of the hooked crates are built with the hook cfg into a
+    target directory of their own and run with FIDGET_VERIF_TRACE set; the recorded hook events are grouped and
+    validated with Trace_Hooks.tla.  `want` selects the record kinds that belong to the calling check."""
+    import hashlib, collections
+    wd = workdir("repotests")
+    rc, head, _ = sh(["git", "-C", "/repo", "rev-parse", "HEAD"], 60)
+    rc, diff, _ = sh(["git", "-C", "/repo", "diff"], 60)
+    stamp = hashlib.sha1((head + diff).encode()).hexdigest()
+    agg = os.path.join(wd, "agg_%s.ndjson" % stamp)
+    if not os.path.exists(agg):
+        for f in glob.glob(os.path.join(wd, "agg_*.ndjson")):
+            os.remove(f)
+        raw = os.path.join(wd, "events.ndjson")
+        if os.path.exists(raw):
+            os.remove(raw)
+        env = {"RUSTFLAGS": "--cfg fidget_verif --check-cfg cfg(fidget_verif)", "CARGO_TARGET_DIR": os.path.join(WORK, "target-repotests"),
+               "FIDGET_VERIF_TRACE": raw}
+        rc, text, dt = sh(["cargo", "test", "--offline", "-p", "fidget-jit", "-p", "fidget-mesh", "-p", "fidget-raster", "-p", "fidget-solver", "--lib"],
+                          6000, cwd="/repo", env=env)
+        log("repository tests with hooks on: rc=%d %.0fs" % (rc, dt))
+        if not os.path.exists(raw):
+            sys.stdout.write(text[-3000:])
+            raise ToolError("the repository's tests recorded no hook events")
+        # grouping only (no judgement): native calls of one bulk evaluation; distinct records with multiplicity
+        bulk = collections.Counter()
+        coll = collections.Counter()
+        cur = {}
+        counts = collections.Counter()
+        def close(key):
+            g = cur.pop(key, None)
+            if g:
+                bulk[json.dumps(g, sort_keys=True)] += 1
+        for line in open(raw):
+            try:
+                e = json.loads(line)
+            except Exception:
+                continue
+            counts[e["name"]] += 1
+            key = (e["pid"], e["thread"])
+            if e["name"] == "bulk_call":
+                c = {k: e[k] for k in ("scratch", "offset", "count", "n", "w", "out_len")}
+                g = cur.get(key)
+                if g is not None and c["offset"] > 0 and g["n"] == c["n"] and g["w"] == c["w"] and len(g["calls"]) < 2:
+                    g["calls"].append(c)
+                else:
+                    close(key)
+                    cur[key] = {"ev": "bulk", "n": c["n"], "w": c["w"], "out_len": c["out_len"], "calls": [c]}
+            elif e["name"] == "collapse":
+                coll[json.dumps({"ev": "collapse", "mask": e["mask"], "c": [e["c%d" % k] for k in range(8)]})] += 1
+        for key in list(cur):
+            close(key)
+        with open(agg, "w") as out:
+            i = 0
+            for rec, mult in list(bulk.items()) + list(coll.items()):
+                r = json.loads(rec)
+                r["id"] = i
+                r["times"] = mult
+                out.write(json.dumps(r) + "\n")
+                i += 1
+        with open(os.path.join(wd, "counts.json"), "w") as out:
+            json.dump(dict(counts, test_rc=rc), out)
+        os.remove(raw)
+    counts = json.load(open(os.path.join(wd, "counts.json")))
+    sel = os.path.join(wd, "sel_%s.ndjson" % "_".join(want))
+    nsel = 0
+    with open(sel, "w") as out:
+        for line in open(agg):
+            if json.loads(line)["ev"] in want:
+                out.write(line)
+                nsel += 1
+    if nsel == 0:
+        raise ToolError("the repository's tests produced no %s records" % "/".join(want))
+    n, rej = validate("Trace_Hooks", sel, wd, timeout=3000)
+    res.extra["repository_test_events"] = counts
+    res.extra["repository_test_records_validated"] = n - len(rej)
+    log("T Trace_Hooks (%s): %d distinct records of the repository's own tests (%s events), %d rejected" % ("/".join(want), n, sum(v for k, v in counts.items() if k != "test_rc"), len(rej)))
+    rdir = os.path.join(ROOT, "replays", res.prop)
+    os.makedirs(rdir, exist_ok=True)
+    for line in open(sel):
+        r = json.loads(line)
+        if r["id"] in rej:
+            path = os.path.join(rdir, "%s_seed%d_repotests_%d.ndjson" % (res.tier, res.seed, r["id"]))
+            with open(path, "w") as out:
+                out.write(line)
+            res.violations.append(("repository tests: %s record (seen %d times) fails=%s" % (r["ev"], r["times"], "+".join(rej[r["id"]])), path))
+    if counts.get("test_rc", 0) != 0:
+        log("note: the repository's tests did not all pass with the hooks on (rc=%s); their events were validated all the same" % counts.get("test_rc"))
+
+
 def validate_alloc_events(path, wd, label="aev"):
     """T (stateful, one step per event): the recorded steps of the real RegisterAllocator<N> against the actions of
     Alloc.tla (Trace_Alloc.tla).  The file is cut at `reset` events into pieces validated by concurrent TLC runs.
@@ -399,6 +489,8 @@ def c02(res):
     trace = os.path.join(wd, "trace.ndjson")
     if not run_recorder(res, "c02", [progs, res.tier, trace], wd):
         return res.finish("recorder crashed")
+    if res.tier == "thorough":
+        repo_test_traces(res, ["bulk"])
     n, rej = validate("Trace_C02", trace, wd, timeout=3000)
     res.validated = n - len(rej)
     res.evaluations = n
@@ -495,6 +587,8 @@ def c08(res):
         return res.finish("recorder crashed")
     with open(trace, "a") as out:
         out.write(open(tr2).read())
+    if not q:
+        repo_test_traces(res, ["collapse"])
     n, rej = validate("Trace_C08", trace, wd, timeout=10000, parallel=8)
     res.validated = n - len(rej)
     res.evaluations = n
@@ -762,6 +856,13 @@ def replay(prop, path):
         return 2
     if prop == "C17":
         c17_meta(workdir(prop))
+    if "_repotests_" in os.path.basename(path):                # a record of the repository's own tests (Trace_Hooks.tla)
+        n, rej = validate("Trace_Hooks", os.path.abspath(path), workdir(prop))
+        if rej:
+            print("VIOLATION property=%s replay=%s  # %s" % (prop, path, rej))
+            return 1
+        print("replay accepted")
+        return 0
     if open(path).readline().startswith('{"e":"reset"'):      # allocator step trace (Trace_Alloc.tla)
         ne, nd, rej = validate_alloc_events(os.path.abspath(path), workdir(prop), label="replay")
         if rej:
